@@ -760,16 +760,17 @@ Qed.
 
 (* ---- where averaging is not exact: uint64 and float32 --------------------------- *)
 
-(* top of the uint64 range wraps to 0; values above 2^53 lose precision *)
+(* uint64 voxels at or above 2^49: float64 loses precision (the top of the range
+   now saturates instead of wrapping, but is still imprecise) *)
 Lemma avg_uint64_refuted :
   exists V fs,
     avg_uint64_guard U64 V = false /\ check_factors_avg fs = true /\ Forall4 (in_range U64) V /\
     ~ Forall4 (small_val 3) V /\
-    avg_model U64 None fs (map4 NI V) = Ok [[[[NI 0; NI (2 ^ 53)]]]] /\
+    avg_model U64 None fs (map4 NI V) = Ok [[[[NI (2 ^ 64 - 1); NI (2 ^ 53)]]]] /\
     avg_spec U64 None (fac fs 0) (fac fs 1) (fac fs 2) 1 1 1 4 (map4 inject_Z V)
-      = [[[[NI (2 ^ 64 - 1); NI (2 ^ 53 + 1)]]]].
+      = [[[[NI (2 ^ 64 - 512); NI (2 ^ 53 + 1)]]]].
 Proof.
-  exists [[[[2 ^ 64 - 1; 2 ^ 64 - 1; 2 ^ 53 + 1; 2 ^ 53 + 1]]]], [2; 1; 1].
+  exists [[[[2 ^ 64 - 1; 2 ^ 64 - 1023; 2 ^ 53 + 1; 2 ^ 53 + 1]]]], [2; 1; 1].
   split. vm_compute; reflexivity. split. reflexivity.
   split. repeat constructor; vm_compute; discriminate.
   split. { intros H. inversion H as [|? ? H1 _]; subst. inversion H1 as [|? ? H2 _]; subst.
@@ -777,6 +778,12 @@ Proof.
            vm_compute in H4. discriminate. }
   split; vm_compute; reflexivity.
 Qed.
+
+(* the former wrap-around witness: the mean of two voxels 2^64-1 is now 2^64-1 *)
+Lemma avg_uint64_top_saturates :
+  avg_model U64 None [2; 1; 1] [[[[NI (2 ^ 64 - 1); NI (2 ^ 64 - 1)]]]] = Ok [[[[NI (2 ^ 64 - 1)]]]] /\
+  avg_spec U64 None 2 1 1 1 1 1 2 (map4 inject_Z [[[[2 ^ 64 - 1; 2 ^ 64 - 1]]]]) = [[[[NI (2 ^ 64 - 1)]]]].
+Proof. split; vm_compute; reflexivity. Qed.
 
 (* the guard delimits the region: where it holds (uint64 voxels below 2^49, or
    any other unsigned type) averaging is exact *)
